@@ -28,7 +28,7 @@ import pygal
 import pygal_m
 from pygal import BOOL, NONE, STR, Ext, Opt, Ty, Unsupported, _bad, path_of, tr_expr, wrap_pending  # noqa: F401
 
-LVAL = Ty("lval", g="lval")
+LVAL = Ty("lval", g="lval", may_be_none=True)      # Any: the None object is one of the "other" values
 PSTR = Ty("pstr", g="pstr")
 TNUM = Ty("tnum", g="N")              # a label type number: the int on the wire, `member.value`
 MEMBER = Ty("member", g="N")          # a LabelType member (PyPreludeLabels.v: represented by its value)
@@ -177,6 +177,12 @@ def expr(fn, node, env):
             _bad("%s[%r](%r)" % (TABLE_NAME, tk, ta), node)
         return fn.partial("(dict_getitem_call %s %s %s)" % (tb, k, a), "parsed"), LVAL
     return None
+
+
+def isinst(fn, p, g, t, cls, env, kt, kf):
+    """isinstance tests on the unit's dynamically typed values are not read (pygal's default would decide them by the
+    static type: wrong for a label value, which may be an instance of anything - bool and IntEnum members are ints)"""
+    _bad("isinstance(%s, %s) on a value of type %r" % (p, cls, t))
 
 
 def raise_stmt(fn, s, env):
@@ -340,7 +346,7 @@ EXT = Ext(
              ("Eq", "str", "pstr"): "(pstr_eqb (pstr_of_string %s) %s)",
              ("NotEq", "str", "pstr"): "(negb (pstr_eqb (pstr_of_string %s) %s))"},
     truthy={"tnum": "(negb (N.eqb %s 0%%N))", "lval": "(py_truthy W %s)"},
-    expr=expr, raise_stmt=raise_stmt, raise_="None",
+    expr=expr, raise_stmt=raise_stmt, raise_="None", isinst=isinst,
     prim=prim, mutates=lambda s: set(), mutates_target=mutates_target, stmt_m=stmt_m, exc_type=Ty("exc", g="unit"))
 
 GLOBALS = {n: (c, BTYPE) for n, c in BUILTIN_TYPES.items()}
@@ -587,21 +593,10 @@ def tr_method(unit, nd, fs):
     return "Definition %s (self : tmsg) : LM tmsg :=\nrun_fn_ret (\n%s)." % (fs["gname"], pygal_m.indent(body))
 
 
-def translate(repo, spec):
-    """-> (gallina text, info).  Same contract as pygal.translate; reads BOTH files of the unit."""
-    texts, trees = {}, {}
-    for f in (spec["file"], spec["file2"]):
-        texts[f] = open(os.path.join(repo, f)).read()
-        trees[f] = ast.parse(texts[f])
-    sha = hashlib.sha256("\0".join(texts[f] for f in sorted(texts)).encode()).hexdigest()
-    info = dict(file=spec["file"] + " + " + spec["file2"], sha256=sha, functions={})
-    unit = pygal.Unit()
-    unit.ext = spec["ext"]
-    pygal._CUR["ext"] = unit.ext
-    out = []
-    # ---- taskiq/labels.py
-    tree, f1 = trees[spec["file"]], spec["file"]
-    top = {}
+def labels_module(unit, tree, f1, functions, info, with_table, also_allowed):
+    """taskiq/labels.py: the enum, (with_table:) the table, the functions of `functions` -> list of Gallina definitions.
+    also_allowed: names of further top-level functions that may mention the enum / the table (not translated)"""
+    out, top = [], {}
     for s in tree.body:
         if isinstance(s, (ast.FunctionDef, ast.AsyncFunctionDef, ast.ClassDef)):
             top.setdefault(s.name, s)
@@ -615,25 +610,42 @@ def translate(repo, spec):
     if not isinstance(tab, (ast.Assign, ast.AnnAssign)):
         raise Unsupported("table %s not found in %s" % (TABLE_NAME, f1))
     fdefs = []
-    for fs in spec["functions"]:
+    for fs in functions:
         nd = top.get(fs["name"])
         if not isinstance(nd, (ast.FunctionDef, ast.AsyncFunctionDef)):
             raise Unsupported("function %s not found in %s" % (fs["name"], f1))
         fdefs.append(nd)
-    _check_module(tree, [cls, tab] + fdefs)
+    _check_module(tree, [cls, tab] + fdefs + [top[n] for n in also_allowed if isinstance(top.get(n), ast.FunctionDef)])
     if tree.body.index(cls) > tree.body.index(tab):
         _bad("%s is defined after the table that uses it" % ENUM_NAME, cls)
     etext, members = tr_enum(cls)
     out.append("(* %s, lines %d-%d *)\nDefinition %s : enum :=\n%s." % (f1, cls.lineno, cls.end_lineno, ENUM_NAME, etext))
     info["functions"][ENUM_NAME] = dict(lines=[cls.lineno, cls.end_lineno])
-    out.append("(* %s, lines %d-%d *)\nDefinition %s : option (dict parser) :=\n%s." % (
-        f1, tab.lineno, tab.end_lineno, TABLE_G, tr_table(unit, tab, members)))
-    info["functions"][TABLE_NAME] = dict(lines=[tab.lineno, tab.end_lineno])
-    for fs, nd in zip(spec["functions"], fdefs):
+    if with_table:
+        out.append("(* %s, lines %d-%d *)\nDefinition %s : option (dict parser) :=\n%s." % (
+            f1, tab.lineno, tab.end_lineno, TABLE_G, tr_table(unit, tab, members)))
+        info["functions"][TABLE_NAME] = dict(lines=[tab.lineno, tab.end_lineno])
+    for fs, nd in zip(functions, fdefs):
         out.append("(* %s, lines %d-%d *)\n%s" % (f1, nd.lineno, nd.end_lineno, tr_pure(unit, nd, fs)))
         info["functions"][nd.name] = dict(lines=[nd.lineno, nd.end_lineno])
+    return out
+
+
+def translate(repo, spec):
+    """-> (gallina text, info).  Same contract as pygal.translate; reads BOTH files of the unit."""
+    texts, trees = {}, {}
+    for f in (spec["file"], spec["file2"]):
+        texts[f] = open(os.path.join(repo, f)).read()
+        trees[f] = ast.parse(texts[f])
+    sha = hashlib.sha256("\0".join(texts[f] for f in sorted(texts)).encode()).hexdigest()
+    info = dict(file=spec["file"] + " + " + spec["file2"], sha256=sha, functions={})
+    unit = pygal.Unit()
+    unit.ext = spec["ext"]
+    pygal._CUR["ext"] = unit.ext
+    out = []
+    out += labels_module(unit, trees[spec["file"]], spec["file"], spec["functions"], info, True, [])
     # ---- taskiq/message.py
-    tree2, f2 = trees[spec["file2"]], spec["file2"]
+    tree2, f1, f2 = trees[spec["file2"]], spec["file"], spec["file2"]
     ms = spec["method"]
     cname, mname = ms["name"].split(".")
     imp = _bindings_anywhere(tree2, "parse_label")
